@@ -24,7 +24,7 @@ import (
 // password; the model follows that stricter rule, which the statement allows). For revisions up
 // to 4 a password is its first 32 bytes.
 
-var pwPool = []string{"", "a", "user-pw", "owner-pw", "pässwörd ключ", "0123456789abcdefghijklmnopqrstuvwxyzABCD", "0123456789abcdefghijklmnopqrstuv", "x y"}
+var pwPool = []string{"", "a", "user-pw", "owner-pw", "pässwörd ключ", "0123456789abcdefghijklmnopqrstuvwxyzABCD", "0123456789abcdefghijklmnopqrstuv", "x y", "pw", "pw ", " pw"}
 
 const wrongSentinel = "definitely-not-a-password-zzz"
 
